@@ -83,7 +83,7 @@ func checkTextListing(text string, m *asmModel, cur []byte) string {
 		if pendingBase && k >= m.baseAt && (it.kind != itData || len(it.bytes) > 0) {
 			pendingBase = false
 			l, ok := next()
-			want := fmt.Sprintf("base $%06x", m.base)
+			want := fmt.Sprintf("base $%06x", m.base&0xFFFFFF)
 			if !ok || strings.TrimSpace(l) != want {
 				return fmt.Sprintf("listing line %d is %q, want the base directive %q before anything issued after SetBase", li, l, want)
 			}
@@ -118,7 +118,7 @@ func checkTextListing(text string, m *asmModel, cur []byte) string {
 				return fmt.Sprintf("item %d: cannot parse address/bytes of %q", k, l)
 			}
 			off := int(it.addr - m.base)
-			if a != it.addr {
+			if a != it.addr&0xFFFFFF { // the listing prints 24-bit addresses
 				return fmt.Sprintf("item %d: line %q shows address $%06x, the instruction sits at $%06x", k, l, a, it.addr)
 			}
 			if !bytes.Equal(bs, cur[off:off+len(it.bytes)]) {
@@ -136,7 +136,7 @@ func checkTextListing(text string, m *asmModel, cur []byte) string {
 					return fmt.Sprintf("item %d: want data header '; $addr', got %q", k, h)
 				}
 				a, ok1 := hexVal(h[i+3 : i+9])
-				if !ok1 || a != it.addr+uint32(covered) {
+				if !ok1 || a != (it.addr+uint32(covered))&0xFFFFFF {
 					return fmt.Sprintf("item %d: data header %q, want address $%06x", k, h, it.addr+uint32(covered))
 				}
 				d, ok := next()
@@ -323,6 +323,8 @@ func runC15(r *report.Run) {
 		}
 	}
 	variants = append(variants, asmVariantsPre()...) // a comment or label issued before SetBase
+	// a base at the very end of the uint32 range: the running address wraps to 0 inside the program
+	variants = append(variants, asmVariant{true, true, 0xFFFFFFF0, 0})
 	hist, trans, _ := asmHistorySearch(depth, variants, func(v asmVariant, al []asmOp, idx []int) (string, string, int, *asmHistory) {
 		ops := make([]asmOp, len(idx))
 		for i, k := range idx {
@@ -386,7 +388,7 @@ func runC15(r *report.Run) {
 	r.Set("histories", hist)
 	r.Set("data_length_cases", nd)
 	r.Set("bounds", map[string]interface{}{"history_depth": depth, "alphabet": len(asmAlphabet()), "constructor_variants": len(variants), "data_lengths": fmt.Sprintf("0..%d", maxLen)})
-	r.Set("rule", "every call sequence up to the depth with listing generation on under every base variant (base unset, four bases, and a comment or label issued before SetBase), listings taken before and after Finalize: the hex listing's 0x??, tokens left of any // must concatenate to exactly Bytes(); the text listing is walked item by item against the reference model (base directive before the first line issued after SetBase, label/comment lines where issued, instruction lines with the true address and the bytes Bytes() holds there, data blocks covered contiguously exactly once); no error, no panic, Bytes() unchanged; plus a data-length sweep 0..N alone, next to instructions and in an exactly-sized buffer, and data blocks that are overlapping views of the target buffer itself")
+	r.Set("rule", "every call sequence up to the depth with listing generation on under every base variant (base unset, four bases, a comment or label issued before SetBase, and a base sixteen below 2^32 so that the running address wraps), listings taken before and after Finalize: the hex listing's 0x??, tokens left of any // must concatenate to exactly Bytes(); the text listing is walked item by item against the reference model (base directive before the first line issued after SetBase, label/comment lines where issued, instruction lines with the true address and the bytes Bytes() holds there, data blocks covered contiguously exactly once); no error, no panic, Bytes() unchanged; plus a data-length sweep 0..N alone, next to instructions and in an exactly-sized buffer, and data blocks that are overlapping views of the target buffer itself")
 	r.Sample(asmHistory{Variant: variants[2], Ops: []string{"Label(a)", "EmitBytes(17)", "BNE(a)", "Comment(200 chars)"}, Capacity: 256})
 	r.Assume("the 16-per-line chunking of data blocks is not required, only contiguous exact coverage")
 }
